@@ -42,7 +42,7 @@ func c13Specs(tier string, seed int) []c13Spec {
 	for v := 0; v < 12; v++ {
 		out = append(out, c13Spec{Kind: "endit", Var: v})
 	}
-	for v := 0; v < 18; v++ { // 8..11: with the monthly precipitation correction switched on; 12..15: no radiation column, four missing-value codes; 16..17: CO2 rising from year to year
+	for v := 0; v < 20; v++ { // 8..11: with the monthly precipitation correction switched on; 12..15: no radiation column, four missing-value codes; 16..17: CO2 rising from year to year; 18..19: automatic irrigation over two year ends
 		out = append(out, c13Spec{Kind: "weather", Var: v})
 	}
 	for v := 0; v < 6; v++ {
@@ -330,18 +330,45 @@ func c13Run(raw json.RawMessage, c *mc.Ctx) {
 		os.Remove(filepath.Join(root, "project", p.ID, "endit_"+p.ID+".txt"))
 		run("csv", p)
 	case "weather":
-		et := []int{3, 2, 4, 1, 3, 2, 3, 4, 3, 2, 3, 4, 3, 2, 4, 3, 3, 2}[sp.Var]
+		et := []int{3, 2, 4, 1, 3, 2, 3, 4, 3, 2, 3, 4, 3, 2, 4, 3, 3, 2, 3, 2}[sp.Var]
 		b := e1Base{Soil: "loam12", GW: 99, InitW: 0.7, InitN: 30, ET: et, Start: []string{"2001-08-15", "2003-12-30", "2000-01-01", "1999-03-01"}[sp.Var%4]}
-		p := e1Project(b, 500)
+		yearEnd := sp.Var >= 18
+		if yearEnd {
+			b.Start, b.InitW = []string{"2000-05-01", "2004-03-10"}[sp.Var-18], 0.3
+		}
+		p := e1Project(b, map[bool]int{false: 500, true: 700}[yearEnd])
 		st := proj.D(b.Start)
 		p.Rotation = append(p.Rotation[:1], proj.CropEntry{Crop: "WW", Sow: st.AddDate(0, 0, 50).Format("2006-01-02"), Harvest: st.AddDate(0, 0, 340).Format("2006-01-02"), Rex: 50},
 			proj.CropEntry{Crop: "SM", Sow: st.AddDate(0, 0, 900).Format("2006-01-02"), Harvest: st.AddDate(0, 0, 1000).Format("2006-01-02")})
+		if yearEnd {
+			// automatic irrigation (decided with a two-day rain forecast) under crops that stand over both year ends of the
+			// run, the first one the end of a leap year with a wet 31 December; warm, almost dry weather
+			y := st.Year()
+			p.Rotation = append(p.Rotation[:1], proj.CropEntry{Crop: "SM", Sow: fmt.Sprintf("%d-10-20", y), Harvest: fmt.Sprintf("%d-03-20", y+1), Rex: 50},
+				proj.CropEntry{Crop: "SM", Sow: fmt.Sprintf("%d-10-20", y+1), Harvest: fmt.Sprintf("%d-03-20", y+2), Rex: 50})
+			p.Automan = "crp Sow1 Sow2 har2 TSmin Smomin Smomax Hmomin Hmomax Rainav Rainact TACCU Tbase Irrdv1 Irrdv2 Ndem1 Ndem2 Ndem3 stage1 stage 2 stage 3 Twindow orgF  amount appdat Irrlow irrdep irrmax\n" +
+				c16Row(c16Crop{"SM", "", "", "1010", "3010", "3003", 0}, 8) + "\n"
+			p.Config["AutoIrrigation"] = "1"
+			p.Config["ManagementEvents"] = "1"
+			p.Irr = []proj.Irr{}
+		}
 		p.Config["OutputIntervall"] = "1"
 		p.DailyCols = minimalDailyWith(strings.Split(c13Daily+",TEMPdaily,RADdaily,REGENdaily,WINDdaily", ",")...)
 		// the series starts on 1 January of the start year in every layout
 		jan1 := fmt.Sprintf("%04d-01-01", st.Year())
 		p.WeatherStart = jan1
 		p.Weather = seasonWeather(proj.D(jan1), 365*3)
+		if yearEnd {
+			for i := range p.Weather {
+				d := proj.D(jan1).AddDate(0, 0, i)
+				p.Weather[i] = proj.Day{Tmin: 14, Tavg: 20, Tmax: 26, Precip: 0, Rad: 18, Wind: 2, RH: 50, Sun: 8}
+				if d.Day() == 31 && d.Month() == 12 && d.Year() == st.Year() {
+					p.Weather[i].Precip = 15
+				} else if i%37 == 5 {
+					p.Weather[i].Precip = 6
+				}
+			}
+		}
 		if sp.Var >= 4 {
 			p.SunColumn = true
 		}
@@ -364,7 +391,7 @@ func c13Run(raw json.RawMessage, c *mc.Ctx) {
 			}
 		}
 		layouts := []int{0, 1, 2}
-		if sp.Var >= 16 {
+		if sp.Var >= 16 && sp.Var < 18 {
 			// a CO2 concentration that rises from year to year: header slot of the year files, CO2 column of the day-of-year layout
 			// (the multi-year CSV layout cannot carry it)
 			layouts = []int{1, 2}
